@@ -421,7 +421,9 @@ class VFS:
         ino = self.files.get(self._resolve(p))
         if ino is None:
             raise FileNotFoundError(2, "No such file or directory", p)
-        ino.mtime = self.stamp() if times is None else int(times[1])
+        # (ns=... comes from shutil.copystat copying the times of a file outside the virtual root: that file was
+        # written "now" on the owned clock)
+        ino.mtime = self.stamp() if (times is None or kwargs.get("ns")) else int(times[1])
 
     def v_getpid(self):
         return getattr(self.local, "pid", None) or self._saved["getpid"]()
@@ -433,6 +435,15 @@ class VFS:
         self.hook("listdir", p)
         pre = p.rstrip("/") + "/"
         return sorted({f[len(pre) :].split("/")[0] for f in (*self.files, *self.links) if f.startswith(pre)})
+
+    def v_chmod(self, path, mode, *a, **k):
+        p = self._virtual(path)
+        if p is None:
+            return self._saved["chmod"](path, mode, *a, **k)
+        self.hook("chmod", p)
+        if self._resolve(p) not in self.files:
+            raise FileNotFoundError(2, "No such file or directory", p)
+        return None  # permission bits are not modelled
 
     def v_unsupported(self, name):
         def f(path, *a, **k):
@@ -490,8 +501,9 @@ class VFS:
         os.utime = self.v_utime
         os.getpid = self.v_getpid
         os.listdir = self.v_listdir
-        for n in ("mkdir", "link", "symlink", "truncate", "chmod"):
+        for n in ("mkdir", "link", "symlink", "truncate"):
             setattr(os, n, self.v_unsupported(n))
+        os.chmod = self.v_chmod
 
         os.open = self.v_os_open
 
